@@ -114,10 +114,10 @@ func (r *recWriter) Close() error { r.closed = true; return nil }
 type collW struct{ n int }
 
 func (c *collW) Write(p []byte) (int, error) {
-	if bytes.Contains(p, []byte("Diode set collision")) {
-		c.n++
-		obs(ev{"a": "Collision"})
-	}
+	// the only thing the diode package writes to the standard logger is its collision notice; its wording is not part of
+	// the contract, so any line counts
+	c.n++
+	obs(ev{"a": "Collision"})
 	return len(p), nil
 }
 
